@@ -33,9 +33,9 @@ type c04Scenario struct {
 
 func c04Suites(tier string) []core.Suite {
 	if tier == "thorough" {
-		return []core.Suite{{Name: "reach", N: 40000}, {Name: "synth", N: 20000}}
+		return []core.Suite{{Name: "reach", N: 400000}, {Name: "synth", N: 200000}}
 	}
-	return []core.Suite{{Name: "reach", N: 1600}, {Name: "synth", N: 800}}
+	return []core.Suite{{Name: "reach", N: 8000}, {Name: "synth", N: 4000}}
 }
 
 const c04ClaimsPerState = 24
